@@ -19,16 +19,70 @@ func Canon(v ssa.Value) string {
 	if v == nil {
 		return ""
 	}
-	return canonD(v, 0)
+	return canonD(v, nil, 0)
 }
 
-func canonD(v ssa.Value, depth int) string {
+// cenv binds the parameters of a pure expression function that is rendered in
+// place of a call to it (`s.peekAt(1)` reads as `s.input[s.pos+1]`).
+type cenv struct {
+	bind  map[*ssa.Parameter]ssa.Value
+	outer *cenv
+}
+
+// PureExprFunc: fn is a single-block function without effects whose result is
+// one expression over its parameters (loads, field and index reads, slices,
+// arithmetic, len): an accessor.  Returns the returned expression.
+func PureExprFunc(fn *ssa.Function) (ssa.Value, bool) {
+	if fn == nil || len(fn.Blocks) != 1 || fn.Synthetic != "" || len(fn.FreeVars) > 0 {
+		return nil, false
+	}
+	var ret ssa.Value
+	for _, ins := range fn.Blocks[0].Instrs {
+		switch x := ins.(type) {
+		case *ssa.UnOp, *ssa.FieldAddr, *ssa.Field, *ssa.IndexAddr, *ssa.Index, *ssa.Lookup, *ssa.Slice, *ssa.BinOp, *ssa.Convert, *ssa.ChangeType, *ssa.DebugRef:
+			if lk, ok := x.(*ssa.Lookup); ok && lk.CommaOk {
+				return nil, false
+			}
+		case *ssa.Call:
+			b, ok := x.Common().Value.(*ssa.Builtin)
+			if !ok || b.Name() != "len" {
+				return nil, false
+			}
+		case *ssa.Return:
+			if len(x.Results) != 1 {
+				return nil, false
+			}
+			ret = x.Results[0]
+		default:
+			return nil, false
+		}
+	}
+	return ret, ret != nil
+}
+
+func (e *cenv) resolve(v ssa.Value) (ssa.Value, *cenv) {
+	for e != nil {
+		prm, ok := v.(*ssa.Parameter)
+		if !ok {
+			break
+		}
+		a, ok := e.bind[prm]
+		if !ok {
+			break
+		}
+		v, e = a, e.outer
+	}
+	return v, e
+}
+
+func canonD(v ssa.Value, env *cenv, depth int) string {
 	if v == nil {
 		return ""
 	}
 	if depth > 12 {
 		return "%" + v.Name()
 	}
+	v, env = env.resolve(v)
 	switch x := v.(type) {
 	case *ssa.Parameter:
 		return "$" + x.Name()
@@ -46,40 +100,52 @@ func canonD(v ssa.Value, depth int) string {
 		return "^" + x.Name()
 	case *ssa.UnOp:
 		if x.Op == token.MUL {
-			return "*" + canonD(x.X, depth+1)
+			return "*" + canonD(x.X, env, depth+1)
 		}
-		return x.Op.String() + "(" + canonD(x.X, depth+1) + ")"
+		return x.Op.String() + "(" + canonD(x.X, env, depth+1) + ")"
 	case *ssa.FieldAddr:
 		st := x.X.Type().Underlying().(*types.Pointer).Elem().Underlying().(*types.Struct)
-		return canonD(x.X, depth+1) + "." + st.Field(x.Field).Name()
+		return canonD(x.X, env, depth+1) + "." + st.Field(x.Field).Name()
 	case *ssa.Field:
 		st := x.X.Type().Underlying().(*types.Struct)
-		return canonD(x.X, depth+1) + "." + st.Field(x.Field).Name()
+		return canonD(x.X, env, depth+1) + "." + st.Field(x.Field).Name()
 	case *ssa.IndexAddr:
-		return canonD(x.X, depth+1) + "[" + canonD(x.Index, depth+1) + "]"
+		return canonD(x.X, env, depth+1) + "[" + canonD(x.Index, env, depth+1) + "]"
 	case *ssa.Index:
-		return canonD(x.X, depth+1) + "[" + canonD(x.Index, depth+1) + "]"
+		return canonD(x.X, env, depth+1) + "[" + canonD(x.Index, env, depth+1) + "]"
 	case *ssa.Lookup:
-		return canonD(x.X, depth+1) + "[" + canonD(x.Index, depth+1) + "]"
+		return canonD(x.X, env, depth+1) + "[" + canonD(x.Index, env, depth+1) + "]"
 	case *ssa.Slice:
-		return "(" + canonD(x.X, depth+1) + "[" + canonD(x.Low, depth+1) + ":" + canonD(x.High, depth+1) + "])"
+		return "(" + canonD(x.X, env, depth+1) + "[" + canonD(x.Low, env, depth+1) + ":" + canonD(x.High, env, depth+1) + "])"
 	case *ssa.Convert:
 		if b, ok := x.Type().Underlying().(*types.Basic); ok && b.Info()&types.IsInteger != 0 {
 			if bx, ok := x.X.Type().Underlying().(*types.Basic); ok && bx.Info()&types.IsInteger != 0 {
-				return canonD(x.X, depth+1)
+				return canonD(x.X, env, depth+1)
 			}
 		}
 	case *ssa.ChangeType:
-		return canonD(x.X, depth+1)
+		return canonD(x.X, env, depth+1)
 	case *ssa.BinOp:
 		if x.Op == token.ADD || x.Op == token.SUB {
 			if b, ok := x.Type().Underlying().(*types.Basic); ok && b.Info()&types.IsInteger != 0 {
-				k, terms := linear(x, depth)
+				k, terms := linear(x, env, depth)
 				var keys []string
 				for t := range terms {
 					keys = append(keys, t)
 				}
 				sort.Strings(keys)
+				// x + 0 (an accessor called with offset 0) is x
+				if k == 0 {
+					var only []string
+					for _, t := range keys {
+						if terms[t] != 0 {
+							only = append(only, t)
+						}
+					}
+					if len(only) == 1 && terms[only[0]] == 1 {
+						return only[0]
+					}
+				}
 				var sb strings.Builder
 				for _, t := range keys {
 					if terms[t] == 0 {
@@ -108,49 +174,73 @@ func canonD(v ssa.Value, depth int) string {
 	case *ssa.Call:
 		name := "call"
 		if f := x.Common().StaticCallee(); f != nil {
+			if ret, ok := PureExprFunc(f); ok && depth < 8 {
+				b := map[*ssa.Parameter]ssa.Value{}
+				for i, prm := range f.Params {
+					if i < len(x.Common().Args) {
+						b[prm] = x.Common().Args[i]
+					}
+				}
+				return canonD(ret, &cenv{bind: b, outer: env}, depth+1)
+			}
 			name = f.Name()
 		} else if b, ok := x.Common().Value.(*ssa.Builtin); ok {
 			name = b.Name()
 		}
 		var args []string
 		for _, a := range x.Common().Args {
-			args = append(args, canonD(a, depth+1))
+			args = append(args, canonD(a, env, depth+1))
 		}
 		return name + "(" + strings.Join(args, ",") + ")"
 	case *ssa.Extract:
-		return canonD(x.Tuple, depth+1) + fmt.Sprintf("#%d", x.Index)
+		return canonD(x.Tuple, env, depth+1) + fmt.Sprintf("#%d", x.Index)
 	}
 	return "%" + v.Name()
 }
 
-func linear(v ssa.Value, depth int) (int64, map[string]int64) {
+func linear(v ssa.Value, env *cenv, depth int) (int64, map[string]int64) {
 	terms := map[string]int64{}
 	var k int64
-	var rec func(v ssa.Value, sign int64, d int)
-	rec = func(v ssa.Value, sign int64, d int) {
+	var rec func(v ssa.Value, env *cenv, sign int64, d int)
+	rec = func(v ssa.Value, env *cenv, sign int64, d int) {
+		v, env = env.resolve(v)
 		if c, ok := ConstInt(v); ok {
 			k += sign * c
 			return
 		}
 		if bo, ok := v.(*ssa.BinOp); ok && d < 20 && (bo.Op == token.ADD || bo.Op == token.SUB) {
-			rec(bo.X, sign, d+1)
+			rec(bo.X, env, sign, d+1)
 			if bo.Op == token.ADD {
-				rec(bo.Y, sign, d+1)
+				rec(bo.Y, env, sign, d+1)
 			} else {
-				rec(bo.Y, -sign, d+1)
+				rec(bo.Y, env, -sign, d+1)
 			}
 			return
 		}
-		if cv, ok := v.(*ssa.Convert); ok {
-			if bx, ok := cv.X.Type().Underlying().(*types.Basic); ok && bx.Info()&types.IsInteger != 0 {
-				if b, ok := cv.Type().Underlying().(*types.Basic); ok && b.Info()&types.IsInteger != 0 {
-					rec(cv.X, sign, d+1)
+		if call, ok := v.(*ssa.Call); ok && d < 8 {
+			if f := call.Common().StaticCallee(); f != nil {
+				if ret, ok := PureExprFunc(f); ok {
+					b := map[*ssa.Parameter]ssa.Value{}
+					for i, prm := range f.Params {
+						if i < len(call.Common().Args) {
+							b[prm] = call.Common().Args[i]
+						}
+					}
+					rec(ret, &cenv{bind: b, outer: env}, sign, d+1)
 					return
 				}
 			}
 		}
-		terms[canonD(v, depth+1)] += sign
+		if cv, ok := v.(*ssa.Convert); ok {
+			if bx, ok := cv.X.Type().Underlying().(*types.Basic); ok && bx.Info()&types.IsInteger != 0 {
+				if b, ok := cv.Type().Underlying().(*types.Basic); ok && b.Info()&types.IsInteger != 0 {
+					rec(cv.X, env, sign, d+1)
+					return
+				}
+			}
+		}
+		terms[canonD(v, env, depth+1)] += sign
 	}
-	rec(v, 1, 0)
+	rec(v, env, 1, 0)
 	return k, terms
 }
